@@ -156,6 +156,14 @@ def gen_cases(tier, absc, rng):
             out.append({"kind": "name", "label": f"v{version} single-file name {h!r}",
                         "raw": oracle.ref_metafile(h, [((), DATA)], PL, version, single=True),
                         "name": h, "path": [], "depth": 0, "v2": version != 1})
+    # an empty (or dot) NAME followed by innocuous elements that SPELL an absolute directory of the sandbox: harmless as long as
+    # the name is refused and the join is os.path.join; a plain separator join of ['', 'tmp', ..., 'a'] is the absolute path
+    spelled = [p for p in absc.split("/") if p]
+    for nm in ("", "."):
+        for tail in (["a"], ["x", "a"]):
+            out.append({"kind": "name", "label": f"v1 multi-file name {nm!r} with path elements that spell the absolute directory {absc}",
+                        "raw": v1_meta(nm, [(tuple(spelled + tail), DATA)]), "name": nm, "path": spelled + tail,
+                        "depth": len(spelled) + len(tail)})
     for comps in ([5, "a"], [b"\xff\xfe", "a"], ["a", b"\xc3\x28"], [["..", ".."], "a"], [b"..", b"..", b"a"], ["..", 7]):
         try:
             raw = v1_meta("n", [(comps, DATA)])
